@@ -149,4 +149,104 @@ theorem copy_fault_unchanged (w : World) (s d : Nat) (hw : w.heap.WF) (hthrow : 
         exact ⟨rfl, e1, e2⟩
       | some pt => obtain ⟨p, t⟩ := pt; simp at hthrow
 
+theorem allocTable_fault (h : Heap) (fixedLoc : Bool) (alloc cap : Nat) (h' : Heap)
+    (hf : allocTable h fixedLoc alloc cap = (h', none)) : h'.live = h.live ∧ h'.errs = h.errs ∧ h'.next = h.next := by
+  unfold allocTable at hf
+  split at hf
+  · simp at hf
+  · split at hf <;> simp at hf
+    rename_i hal
+    obtain ⟨rfl⟩ := hf
+    exact allocate_fail _ _ _ _ _ hal
+
+/-- move assignment with a throwing allocator (only the element-wise branch allocates): both vectors, every other vector
+    and the ledger are exactly as before -/
+theorem move_assign_fault_unchanged (w : World) (s d : Nat) (hw : w.heap.WF) (hthrow : (w.moveAssign s d).threw = true)
+    (hprev : w.threw = false) :
+    (w.moveAssign s d).vecs = w.vecs ∧ (w.moveAssign s d).heap.live = w.heap.live ∧ (w.moveAssign s d).heap.errs = w.heap.errs := by
+  unfold World.moveAssign at hthrow ⊢
+  by_cases hsd : s = d
+  · simp only [hsd, if_true] at hthrow; exact absurd hthrow (by simp)
+  · simp only [hsd, if_false] at hthrow ⊢
+    cases hvs : w.vecs s with
+    | none => simp only [hvs] at hthrow; rw [hprev] at hthrow; exact absurd hthrow (by simp)
+    | some vs =>
+      cases hvd : w.vecs d with
+      | none => simp only [hvs, hvd] at hthrow; rw [hprev] at hthrow; exact absurd hthrow (by simp)
+      | some vd =>
+        simp only [hvs, hvd] at hthrow ⊢
+        by_cases hsteal : (w.acfg.ae || w.acfg.pocma || w.acfg.eq vd.alloc vs.alloc) = true
+        · simp only [hsteal, if_true] at hthrow; exact absurd hthrow (by simp)
+        · simp only [hsteal, if_false] at hthrow ⊢
+          by_cases hb : vs.bytes > vd.bytes
+          · simp only [hb, if_true] at hthrow ⊢
+            cases hp : allocPair w.heap w.acfg vd.fixedLoc vs.bytes vd.S vd.alloc vs.cap with
+            | mk h1 r =>
+              rw [hp] at hthrow
+              cases r with
+              | none =>
+                obtain ⟨e1, e2⟩ := allocPair_fault _ hw _ _ _ _ _ _ _ hp
+                exact ⟨rfl, e1, e2⟩
+              | some pt => obtain ⟨p, t⟩ := pt; simp at hthrow
+          · simp only [hb, if_false] at hthrow ⊢
+            cases hp : allocTable w.heap vd.fixedLoc vd.alloc vs.cap with
+            | mk h1 r =>
+              rw [hp] at hthrow
+              cases r with
+              | none =>
+                obtain ⟨e1, e2, _⟩ := allocTable_fault _ _ _ _ _ hp
+                exact ⟨rfl, e1, e2⟩
+              | some t => simp at hthrow
+
+/-- copy assignment with a throwing allocator (basic guarantee, as documented by the repair `9d9da98`): the source and
+    every other vector are unchanged; the target is a valid EMPTY vector that still owns a block of the recorded size; no
+    ledger error, and when the data block allocation itself threw, the ledger is exactly as before -/
+theorem copy_assign_fault_world (w : World) (s d : Nat) (vs vd : Vec) (hw : w.heap.WF)
+    (hvs : w.vecs s = some vs) (hvd : w.vecs d = some vd) (hsd : s ≠ d)
+    (hown : Owns w.heap w.acfg vd.S vd.ptr) (hthrow : (w.copyAssign s d).threw = true) :
+    (w.copyAssign s d).vecs s = some vs ∧ (∀ k, k ≠ d → (w.copyAssign s d).vecs k = w.vecs k) ∧
+    (∃ vd', (w.copyAssign s d).vecs d = some vd' ∧ vd'.size = 0 ∧ vd'.cap = vd.cap ∧ vd'.fs = vd.fs ∧
+      (vd'.ptr.blk = vd.ptr.blk ∧ vd'.ptr.units = vd.ptr.units ∧ (w.copyAssign s d).heap.live = w.heap.live ∨
+       Owns (w.copyAssign s d).heap w.acfg vd.S vd'.ptr)) ∧
+    (w.copyAssign s d).heap.errs = w.heap.errs := by
+  have hclear_ptr : vd.clear.ptr = vd.ptr := rfl
+  have hsize0 : ∀ (p : Ptr), (vd.clear.setPtr p).size = 0 := by
+    intro p
+    simp only [Vec.setPtr, Vec.clear, Vec.size, Vec.fixedLoc, Loc.resize]
+    split <;> simp_all
+  unfold World.copyAssign at hthrow ⊢
+  simp only [hsd, if_false, hvs, hvd] at hthrow ⊢
+  have hspec := copyAssign_spec w.heap hw w.acfg vd.S vd.clear.ptr vs.ptr (hclear_ptr ▸ hown)
+  cases hc : vd.clear.ptr.copyAssign w.heap w.acfg vd.S vs.ptr with
+  | mk h1 r =>
+    obtain ⟨p1, okc⟩ := r
+    rw [hc] at hthrow hspec
+    simp only at hspec
+    obtain ⟨herr, hcases⟩ := hspec
+    cases okc with
+    | false =>
+      simp only [World.set]
+      rcases hcases with ⟨hbad, _⟩ | ⟨_, hlive, hblk, hunits⟩
+      · exact absurd hbad (by simp)
+      · refine ⟨by simp [hsd, hvs], fun k hk => by simp [hk], ⟨vd.clear.setPtr p1, by simp, hsize0 p1, rfl, rfl, Or.inl ⟨?_, ?_, hlive⟩⟩, herr⟩
+        · simpa [Vec.ptr, Vec.setPtr, Vec.clear] using hblk
+        · simpa [Vec.ptr, Vec.setPtr, Vec.clear] using hunits
+    | true =>
+      simp only at hthrow ⊢
+      rcases hcases with ⟨_, hwf1, hown1, _⟩ | ⟨hbad, _⟩
+      · cases ht : allocTable h1 vd.fixedLoc p1.alloc vs.cap with
+        | mk h2 t =>
+          rw [ht] at hthrow
+          cases t with
+          | some t' => simp at hthrow
+          | none =>
+            obtain ⟨e1, e2, _⟩ := allocTable_fault _ _ _ _ _ ht
+            simp only [World.set]
+            refine ⟨by simp [hsd, hvs], fun k hk => by simp [hk], ⟨vd.clear.setPtr p1, by simp, hsize0 p1, rfl, rfl, Or.inr ?_⟩, by rw [e2, herr]⟩
+            have : (vd.clear.setPtr p1).ptr = p1 := by cases p1; rfl
+            rw [this]
+            unfold Owns at hown1 ⊢
+            rw [e1]; exact hown1
+      · exact absurd hbad (by simp)
+
 end Cntgs.C17
